@@ -10,7 +10,12 @@ package actor
 
 // stealing: victim and destination are both rings of this queue (what stealHalf
 // moves stays reachable by a worker), and the rings stay well formed
+//@ ghost local ts_probed int
 //@ func (*readyQueue).trySteal(rq, workerID)
+//@   ghost entry ts_probed = 0
+//@   at call 1 of (*Int32).Load ghost ts_probed = ts_probed + 1
+//@   loop 1 invariant one-probe-per-sibling-passed: ts_probed == i - 1
+//@   ensures gives-up-only-after-probing-every-sibling: result == nil && len(rq.locals) > 1 ==> ts_probed == len(rq.locals) - 1
 //@   also C02
 //@   requires locals_wf(rq) && 0 <= workerID && workerID < len(rq.locals)
 //@   loop 1 invariant walking-the-siblings: 1 <= i && i <= n && n == len(rq.locals) && own == rq.locals[workerID] && rq.locals == old(rq.locals)
